@@ -91,7 +91,7 @@ func ReturnsMatching(fn *ssa.Function, idx int, pattern string) []*ssa.Return {
 	var out []*ssa.Return
 	rx := re(pattern)
 	for _, b := range fn.Blocks {
-		if ret, ok := b.Instrs[len(b.Instrs)-1].(*ssa.Return); ok && idx < len(ret.Results) {
+		if ret, ok := b.Instrs[len(b.Instrs)-1].(*ssa.Return); ok && idx < len(ret.Results) && !deadRecover(b) {
 			if rx.MatchString(Desc(RetResults(ret)[idx])) {
 				out = append(out, ret)
 			}
@@ -112,7 +112,7 @@ func ReturnPaths(fn *ssa.Function, idx int, pred func(v ssa.Value) bool) []retPa
 	var out []retPath
 	for _, b := range fn.Blocks {
 		ret, ok := b.Instrs[len(b.Instrs)-1].(*ssa.Return)
-		if !ok || idx >= len(ret.Results) {
+		if !ok || idx >= len(ret.Results) || deadRecover(b) {
 			continue
 		}
 		var rec func(v ssa.Value, blk, via *ssa.BasicBlock, d int)
